@@ -30,51 +30,53 @@ theorem kfac_comm (κ : Option (Img K)) (z y x z' y' x' : Int) :
     kfac κ z y x z' y' x' = kfac κ z' y' x' z y x := by
   cases κ <;> simp [kfac, mul_comm]
 
-/-- `accumulate_Hessian_times_input` without the `if (current == 0) continue` shortcut and with the two branches merged -/
+/-- `accumulate_Hessian_times_input` without the `if (current == 0) continue` shortcut -/
 theorem hessTimesCore_eq (d20 d11 : K → K → K) (pf : K) (w : Img K) (κ : Option (Img K)) (b wb : Box) (cur inp : Img K)
     (z y x : Int) :
     hessTimesCore d20 d11 pf w κ b wb cur inp z y x
       = (nbSum b wb z y x fun dz dy dx =>
-          w dz dy dx * (d20 (cur z y x) (cur (z + dz) (y + dy) (x + dx)) * inp z y x
-            + if dz = 0 ∧ dy = 0 ∧ dx = 0 then 0
-              else d11 (cur z y x) (cur (z + dz) (y + dy) (x + dx)) * inp (z + dz) (y + dy) (x + dx))
-          * kfac κ z y x (z + dz) (y + dy) (x + dx)) * pf := by
+          if dz = 0 ∧ dy = 0 ∧ dx = 0 then 0
+          else w dz dy dx * (d20 (cur z y x) (cur (z + dz) (y + dy) (x + dx)) * inp z y x
+              + d11 (cur z y x) (cur (z + dz) (y + dy) (x + dx)) * inp (z + dz) (y + dy) (x + dx))
+            * kfac κ z y x (z + dz) (y + dy) (x + dx)) * pf := by
   unfold hessTimesCore
   congr 1
   refine nbSum_congr _ _ _ _ _ _ _ fun dz dy dx _ _ => ?_
-  by_cases hw : w dz dy dx = 0
-  · simp [hw]
-  · by_cases hd : dz = 0 ∧ dy = 0 ∧ dx = 0
-    · obtain ⟨rfl, rfl, rfl⟩ := hd
-      simp [hw]
-    · have : (dz == 0 && dy == 0 && dx == 0) = false := by
-        simp only [Bool.and_eq_false_iff, beq_eq_false_iff_ne, ne_eq]
-        tauto
-      simp [hw, hd, this]
+  by_cases hd : dz = 0 ∧ dy = 0 ∧ dx = 0
+  · obtain ⟨rfl, rfl, rfl⟩ := hd
+    simp
+  · have : (dz == 0 && dy == 0 && dx == 0) = false := by
+      simp only [Bool.and_eq_false_iff, beq_eq_false_iff_ne, ne_eq]
+      tauto
+    by_cases hw : w dz dy dx = 0
+    · simp [hw]
+    · simp [hw, hd, this]
 
-/-- the term of the ordered pair `(r, s)` in `⟨u, H v⟩` -/
+/-- the term of the ordered pair `(r, s)` in `⟨u, H v⟩` (nothing for `s = r`: a voxel is not its own neighbour) -/
 def hPair (d20 d11 : K → K → K) (w : Img K) (κ : Option (Img K)) (cur u v : Img K) (r s : V) : K :=
-  u.at r * (w.at (subV s r) * (d20 (cur.at r) (cur.at s) * v.at r
-      + if (subV s r).1 = 0 ∧ (subV s r).2.1 = 0 ∧ (subV s r).2.2 = 0 then 0 else d11 (cur.at r) (cur.at s) * v.at s)
+  if (subV s r).1 = 0 ∧ (subV s r).2.1 = 0 ∧ (subV s r).2.2 = 0 then 0
+  else u.at r * (w.at (subV s r) * (d20 (cur.at r) (cur.at s) * v.at r + d11 (cur.at r) (cur.at s) * v.at s)
     * kfac κ r.1 r.2.1 r.2.2 s.1 s.2.1 s.2.2)
 
 theorem inner_hessTimes (d20 d11 : K → K → K) (pf : K) (w : Img K) (κ : Option (Img K)) (b wb : Box) (cur u v : Img K) :
     inner b u (hessTimesCore d20 d11 pf w κ b wb cur v) = pairSum b wb (hPair d20 d11 w κ cur u v) * pf := by
   unfold inner
   have h1 : ∀ z y x, u z y x * hessTimesCore d20 d11 pf w κ b wb cur v z y x
-      = (nbSum b wb z y x fun dz dy dx => u z y x * (w dz dy dx * (d20 (cur z y x) (cur (z + dz) (y + dy) (x + dx)) * v z y x
-            + if dz = 0 ∧ dy = 0 ∧ dx = 0 then 0
-              else d11 (cur z y x) (cur (z + dz) (y + dy) (x + dx)) * v (z + dz) (y + dy) (x + dx))
-          * kfac κ z y x (z + dz) (y + dy) (x + dx))) * pf := by
+      = (nbSum b wb z y x fun dz dy dx =>
+          if dz = 0 ∧ dy = 0 ∧ dx = 0 then 0
+          else u z y x * (w dz dy dx * (d20 (cur z y x) (cur (z + dz) (y + dy) (x + dx)) * v z y x
+              + d11 (cur z y x) (cur (z + dz) (y + dy) (x + dx)) * v (z + dz) (y + dy) (x + dx))
+            * kfac κ z y x (z + dz) (y + dy) (x + dx))) * pf := by
     intro z y x
     rw [hessTimesCore_eq, ← mul_assoc, nbSum_mul_left]
+    simp only [mul_ite, mul_zero]
   simp only [h1]
   rw [← voxSum_mul_right]
   congr 1
   exact voxSum_nbSum_eq_pairSum b wb fun r d s =>
-    u.at r * (w.at d * (d20 (cur.at r) (cur.at s) * v.at r
-      + if d.1 = 0 ∧ d.2.1 = 0 ∧ d.2.2 = 0 then 0 else d11 (cur.at r) (cur.at s) * v.at s)
-    * kfac κ r.1 r.2.1 r.2.2 s.1 s.2.1 s.2.2)
+    if d.1 = 0 ∧ d.2.1 = 0 ∧ d.2.2 = 0 then 0
+    else u.at r * (w.at d * (d20 (cur.at r) (cur.at s) * v.at r + d11 (cur.at r) (cur.at s) * v.at s)
+      * kfac κ r.1 r.2.1 r.2.2 s.1 s.2.1 s.2.2)
 
 theorem SymWeights.at_swap {wb : Box} {w : Img K} (hw : SymWeights wb w) {r s : V} (h : subV s r ∈ boxF wb) :
     w.at (subV r s) = w.at (subV s r) := by
@@ -86,7 +88,8 @@ theorem pairSum_hPair_symm (d20 d11 : K → K → K) (w : Img K) (κ : Option (I
     pairSum b wb (hPair d20 d11 w κ cur u v) = pairSum b wb (hPair d20 d11 w κ cur v u) := by
   -- diagonal-type part A (symmetric in u, v pointwise) and off-diagonal part B (symmetric after swapping the pair)
   let A (u v : Img K) (r s : V) : K :=
-    u.at r * (w.at (subV s r) * (d20 (cur.at r) (cur.at s) * v.at r) * kfac κ r.1 r.2.1 r.2.2 s.1 s.2.1 s.2.2)
+    if (subV s r).1 = 0 ∧ (subV s r).2.1 = 0 ∧ (subV s r).2.2 = 0 then 0
+    else u.at r * (w.at (subV s r) * (d20 (cur.at r) (cur.at s) * v.at r) * kfac κ r.1 r.2.1 r.2.2 s.1 s.2.1 s.2.2)
   let B (u v : Img K) (r s : V) : K :=
     if (subV s r).1 = 0 ∧ (subV s r).2.1 = 0 ∧ (subV s r).2.2 = 0 then 0
     else u.at r * (w.at (subV s r) * (d11 (cur.at r) (cur.at s) * v.at s) * kfac κ r.1 r.2.1 r.2.2 s.1 s.2.1 s.2.2)
@@ -99,7 +102,8 @@ theorem pairSum_hPair_symm (d20 d11 : K → K → K) (w : Img K) (κ : Option (I
   rw [split u v, split v u]
   congr 1
   · refine pairSum_congr _ _ _ _ fun r s _ _ _ => ?_
-    simp only [A]; ring
+    simp only [A]
+    split_ifs <;> ring
   · rw [pairSum_swap b wb hw.box]
     refine pairSum_congr _ _ _ _ fun r s hr hs hd => ?_
     simp only [B]
@@ -150,17 +154,7 @@ theorem H_psd (d20 d11 : K → K → K) (pf : K) (w : Img K) (κ : Option (Img K
     have hW : 0 ≤ w.at (subV s r) := hw0 _ _ _ (mem_boxF.mp hd)
     have hk := kfac_nonneg hκ hr hs
     by_cases hc : (subV s r).1 = 0 ∧ (subV s r).2.1 = 0 ∧ (subV s r).2.2 = 0
-    · rw [if_pos hc, if_pos (hz.mpr hc)]
-      have q1 := hpsd r s hr hs (e.at r) 0
-      have q2 := hpsd s r hs hr (e.at s) 0
-      have : e.at r * (w.at (subV s r) * (d20 (cur.at r) (cur.at s) * e.at r + 0) * kfac κ r.1 r.2.1 r.2.2 s.1 s.2.1 s.2.2)
-          + e.at s * (w.at (subV s r) * (d20 (cur.at s) (cur.at r) * e.at s + 0) * kfac κ r.1 r.2.1 r.2.2 s.1 s.2.1 s.2.2)
-          = w.at (subV s r) * kfac κ r.1 r.2.1 r.2.2 s.1 s.2.1 s.2.2
-            * ((d20 (cur.at r) (cur.at s) * e.at r * e.at r + 2 * d11 (cur.at r) (cur.at s) * e.at r * 0 + d20 (cur.at s) (cur.at r) * 0 * 0)
-              + (d20 (cur.at s) (cur.at r) * e.at s * e.at s + 2 * d11 (cur.at s) (cur.at r) * e.at s * 0 + d20 (cur.at r) (cur.at s) * 0 * 0)) := by
-        ring
-      rw [this]
-      exact mul_nonneg (mul_nonneg hW hk) (add_nonneg q1 q2)
+    · rw [if_pos hc, if_pos (hz.mpr hc)]; simp
     · rw [if_neg hc, if_neg (fun h => hc (hz.mp h))]
       have q := hpsd r s hr hs (e.at r) (e.at s)
       have : e.at r * (w.at (subV s r) * (d20 (cur.at r) (cur.at s) * e.at r + d11 (cur.at r) (cur.at s) * e.at s) * kfac κ r.1 r.2.1 r.2.2 s.1 s.2.1 s.2.2)
@@ -197,12 +191,17 @@ theorem hessRow_eq_hessTimes_unit (d20 d11 : K → K → K) (pf : K) (w : Img K)
       congr 1
       refine nbSum_congr _ _ _ _ _ _ _ fun dz dy dx _ _ => ?_
       by_cases hd : dz = 0 ∧ dy = 0 ∧ dx = 0
-      · simp [hd, unitImg]
+      · obtain ⟨rfl, rfl, rfl⟩ := hd
+        simp
       · have : unitImg (K := K) z y x (z + dz) (y + dy) (x + dx) = 0 := by
           unfold unitImg
           rw [if_neg]
           intro h; apply hd; omega
-        simp [hd, this, unitImg]
+        have hbq : (dz == 0 && dy == 0 && dx == 0) = false := by
+          simp only [Bool.and_eq_false_iff, beq_eq_false_iff_ne, ne_eq]
+          tauto
+        rw [if_neg hd, hbq, this]
+        simp [unitImg]
     · have hin : ¬ inNb b wb z y x 0 0 0 = true := by
         rw [inNb_iff]; exact fun h => h0 h.1
       rw [if_neg hin, nbSum_eq]
@@ -224,19 +223,19 @@ theorem hessRow_eq_hessTimes_unit (d20 d11 : K → K → K) (pf : K) (w : Img K)
     have e3' : cx + (x - cx) = x := by omega
     -- right-hand side: only the offset d = c - r contributes
     have hR : (nbSum b wb z y x fun dz dy dx =>
-          w dz dy dx * (d20 (cur z y x) (cur (z + dz) (y + dy) (x + dx)) * unitImg cz cy cx z y x
-            + if dz = 0 ∧ dy = 0 ∧ dx = 0 then 0
-              else d11 (cur z y x) (cur (z + dz) (y + dy) (x + dx)) * unitImg cz cy cx (z + dz) (y + dy) (x + dx))
-          * kfac κ z y x (z + dz) (y + dy) (x + dx))
+          if dz = 0 ∧ dy = 0 ∧ dx = 0 then 0
+          else w dz dy dx * (d20 (cur z y x) (cur (z + dz) (y + dy) (x + dx)) * unitImg cz cy cx z y x
+              + d11 (cur z y x) (cur (z + dz) (y + dy) (x + dx)) * unitImg cz cy cx (z + dz) (y + dy) (x + dx))
+            * kfac κ z y x (z + dz) (y + dy) (x + dx))
         = if InBox wb (cz - z) (cy - y) (cx - x) then
             w (cz - z) (cy - y) (cx - x) * d11 (cur z y x) (cur cz cy cx) * kfac κ z y x cz cy cx else 0 := by
       rw [nbSum_eq]
       have hother : ∀ d : V, d ≠ ((cz - z, cy - y, cx - x) : V) →
           (if InBox b (z + d.1) (y + d.2.1) (x + d.2.2) then
-            w d.1 d.2.1 d.2.2 * (d20 (cur z y x) (cur (z + d.1) (y + d.2.1) (x + d.2.2)) * unitImg cz cy cx z y x
-              + if d.1 = 0 ∧ d.2.1 = 0 ∧ d.2.2 = 0 then 0
-                else d11 (cur z y x) (cur (z + d.1) (y + d.2.1) (x + d.2.2)) * unitImg cz cy cx (z + d.1) (y + d.2.1) (x + d.2.2))
-            * kfac κ z y x (z + d.1) (y + d.2.1) (x + d.2.2) else 0) = 0 := by
+            (if d.1 = 0 ∧ d.2.1 = 0 ∧ d.2.2 = 0 then 0
+             else w d.1 d.2.1 d.2.2 * (d20 (cur z y x) (cur (z + d.1) (y + d.2.1) (x + d.2.2)) * unitImg cz cy cx z y x
+                + d11 (cur z y x) (cur (z + d.1) (y + d.2.1) (x + d.2.2)) * unitImg cz cy cx (z + d.1) (y + d.2.1) (x + d.2.2))
+              * kfac κ z y x (z + d.1) (y + d.2.1) (x + d.2.2)) else 0) = 0 := by
         intro d hd
         have : unitImg (K := K) cz cy cx (z + d.1) (y + d.2.1) (x + d.2.2) = 0 := by
           unfold unitImg
@@ -296,10 +295,10 @@ theorem inner_grad (d10 : K → K → K) (pf : K) (w : Img K) (κ : Option (Img 
   congr 1
   exact voxSum_nbSum_eq_pairSum b wb fun r d s => w.at d * d10 (img.at r) (img.at s) * kf κ r s * e.at r
 
-/-- exact second-order expansion of the quadratic prior (symmetric weights with zero centre):
+/-- exact second-order expansion of the quadratic prior (symmetric weights; any centre weight):
     `value(λ + t e) = value λ + t ⟨grad λ, e⟩ + t²/2 ⟨e, H e⟩` -/
 theorem qValue_expansion (pf : K) (w : Img K) (κ : Option (Img K)) (b wb : Box) (lam e : Img K) (t : K)
-    (hw : SymWeights wb w) (hw0 : w 0 0 0 = 0) :
+    (hw : SymWeights wb w) :
     qValueCore pf w κ b wb (fun z y x => lam z y x + t * e z y x)
       = qValueCore pf w κ b wb lam + t * inner b (gradCore qD10 pf w κ b wb lam) e
         + t ^ 2 / 2 * inner b e (hessTimesCore qD20 qD11 pf w κ b wb lam e) := by
@@ -346,7 +345,7 @@ theorem qValue_expansion (pf : K) (w : Img K) (κ : Option (Img K)) (b wb : Box)
     rw [hY', pairSum_swap b wb hw.box, hY]
     refine pairSum_congr _ _ _ _ fun r s hr hs hd => ?_
     rw [hWs r s hr hs hd]
-  -- ⟨e, H e⟩ = Y - Z  (the centre weight is zero)
+  -- ⟨e, H e⟩ = Y - Z  (the pair (r, r) contributes to neither side)
   have h5 : pairSum b wb (hPair qD20 qD11 w κ lam e e) = Y - Z := by
     have : Y - Z = pairSum b wb fun r s => W r s * (e.at r * e.at r) + (-1) * (W r s * (e.at r * e.at s)) := by
       simp only [pairSum_add, ← pairSum_mul_left]; ring
@@ -354,12 +353,12 @@ theorem qValue_expansion (pf : K) (w : Img K) (κ : Option (Img K)) (b wb : Box)
     refine pairSum_congr _ _ _ _ fun r s _ _ _ => ?_
     simp only [hPair, qD20, qD11, hWdef]
     by_cases hc : (subV s r).1 = 0 ∧ (subV s r).2.1 = 0 ∧ (subV s r).2.2 = 0
-    · have : w.at (subV s r) = 0 := by
+    · have hsr : s = r := by
         have a1 : s.1 - r.1 = 0 := hc.1
         have a2 : s.2.1 - r.2.1 = 0 := hc.2.1
         have a3 : s.2.2 - r.2.2 = 0 := hc.2.2
-        simp only [Img.at, subV, a1, a2, a3]; exact hw0
-      rw [if_pos hc, this]; ring
+        ext <;> omega
+      rw [if_pos hc, hsr]; ring
     · rw [if_neg hc]; ring
   rw [h1, h2, h3, h4, h5]
   ring
